@@ -127,7 +127,7 @@ func respell(t *rapid.T) (*gen.Style, []string, bool) {
 	st := gen.DefaultStyle()
 	var names []string
 	permute := false
-	all := []string{"newline", "indent", "comments", "multiline", "spread", "quote-names", "trailing-comma", "blank-lines", "rule-order", "space-before-colon"}
+	all := []string{"newline", "indent", "comments", "multiline", "spread", "quote-names", "trailing-comma", "blank-lines", "rule-order", "space-before-colon", "empty-annotations"}
 	n := rapid.IntRange(1, 5).Draw(t, "nrewrites")
 	for _, r := range rapid.Permutation(all).Draw(t, "rewrites")[:n] {
 		names = append(names, r)
@@ -150,6 +150,8 @@ func respell(t *rapid.T) (*gen.Style, []string, bool) {
 			st.BlankLines = true
 		case "space-before-colon":
 			st.SpaceBeforeColon = true
+		case "empty-annotations":
+			st.EmptyAnn = rapid.IntRange(1, 3).Draw(t, "emptyAnn") // bare "//" after values without rules
 		case "rule-order":
 			permute = true
 			seed := rapid.IntRange(0, 1000).Draw(t, "permSeed")
